@@ -220,7 +220,7 @@ def id_discipline(F, R, ver):
     b = F.one(r'^%s::shared::MqttShared::pkt_ack_inner$' % ver)
     removes = {x[0] for x in calls_on_field(b, r'HashSet::<T, S, A>::remove$', 'inflight_ids')}
     requeue = {x[0] for x in calls_on_field(b, r'VecDeque::<T, A>::push_back$', 'inflight')}
-    oks = [(bi, j) for bi, j, s in b.assigns() if s['lhs']['l'] == 0 and s['rv']['k'] == 'agg' and s['rv'].get('variant') == 'Ok']
+    oks = [(bi, j) for bi, j, s in b.assigns() if s['lhs']['l'] in b.ret_locals and s['rv']['k'] == 'agg' and s['rv'].get('variant') == 'Ok']
     R.floor('C06.id-discipline', '%s Ok exits of pkt_ack_inner' % ver, len(oks), 1)
     for bi, j in oks:
         ok = b.must_pass(removes | requeue, bi)
